@@ -98,3 +98,413 @@ Proof.
       rewrite nth_map_lt with (d := 0) by (rewrite Hr; auto).
       change (ndiv ?a ?b) with (Qdivr a b). rewrite Qdivr_eq. reflexivity.
 Qed.
+(* ------------------------------------------------------------------ finite sums *)
+Fixpoint sumQ (n : nat) (f : nat -> Q) : Q := match n with O => 0 | S k => sumQ k f + f k end.
+
+Lemma sumQ_ext n f g : (forall k, (k < n)%nat -> f k == g k) -> sumQ n f == sumQ n g.
+Proof. induction n; intros Hfg; cbn; [reflexivity|]. rewrite IHn, Hfg by (intros; try apply Hfg; lia). reflexivity. Qed.
+Lemma sumQ_lin n f g a b : sumQ n (fun k => a * f k + b * g k) == a * sumQ n f + b * sumQ n g.
+Proof. induction n; cbn; [ring|]. rewrite IHn. ring. Qed.
+Lemma sumQ_scale n f a : sumQ n (fun k => a * f k) == a * sumQ n f.
+Proof. induction n; cbn; [ring|]. rewrite IHn. ring. Qed.
+Lemma sumQ_plus n f g : sumQ n (fun k => f k + g k) == sumQ n f + sumQ n g.
+Proof. induction n; cbn; [ring|]. rewrite IHn. ring. Qed.
+Lemma sumQ_zero n f : (forall k, (k < n)%nat -> f k == 0) -> sumQ n f == 0.
+Proof. induction n; intros Hf; cbn; [reflexivity|]. rewrite IHn, Hf by (intros; try apply Hf; lia). ring. Qed.
+Lemma sumQ_nonneg n f : (forall k, (k < n)%nat -> 0 <= f k) -> 0 <= sumQ n f.
+Proof. induction n; intros Hf; cbn; [lra|]. assert (0 <= f n) by (apply Hf; lia). assert (0 <= sumQ n f) by (apply IHn; intros; apply Hf; lia). lra. Qed.
+Lemma sumQ_le n f g : (forall k, (k < n)%nat -> f k <= g k) -> sumQ n f <= sumQ n g.
+Proof. induction n; intros Hf; cbn; [lra|]. assert (f n <= g n) by (apply Hf; lia). assert (sumQ n f <= sumQ n g) by (apply IHn; intros; apply Hf; lia). lra. Qed.
+Lemma sumQ_swap n m (f : nat -> nat -> Q) :
+  sumQ n (fun i => sumQ m (fun j => f i j)) == sumQ m (fun j => sumQ n (fun i => f i j)).
+Proof.
+  induction n; cbn.
+  - symmetry. apply sumQ_zero. reflexivity.
+  - rewrite IHn. rewrite <- sumQ_plus. reflexivity.
+Qed.
+Lemma sumQ_delta n a (f : nat -> Q) :
+  sumQ n (fun j => if Nat.eqb j a then f j else 0) == if Nat.ltb a n then f a else 0.
+Proof.
+  induction n; cbn [sumQ]; [reflexivity|]. rewrite IHn.
+  destruct (Nat.eqb_spec n a) as [->|Hne].
+  - rewrite Nat.ltb_irrefl. destruct (Nat.ltb_spec a (S a)); [ring|lia].
+  - destruct (Nat.ltb_spec a n), (Nat.ltb_spec a (S n)); try lia; ring.
+Qed.
+Lemma sumQ_delta' n a (f : nat -> Q) :
+  sumQ n (fun j => if Nat.eqb a j then f j else 0) == if Nat.ltb a n then f a else 0.
+Proof. rewrite <- sumQ_delta. apply sumQ_ext. intros. rewrite Nat.eqb_sym. reflexivity. Qed.
+Lemma sumQ_split a b f : sumQ (a + b) f == sumQ a f + sumQ b (fun j => f (a + j)%nat).
+Proof. induction b; cbn; [rewrite Nat.add_0_r; ring|]. rewrite Nat.add_succ_r. cbn. rewrite IHb. ring. Qed.
+Lemma sumQ_nonneg_zero n f : (forall k, (k < n)%nat -> 0 <= f k) -> sumQ n f <= 0 -> forall k, (k < n)%nat -> f k == 0.
+Proof.
+  induction n; intros Hf Hs k Hk; [lia|]. cbn in Hs.
+  assert (0 <= f n) by (apply Hf; lia). assert (0 <= sumQ n f) by (apply sumQ_nonneg; intros; apply Hf; lia).
+  destruct (Nat.eq_dec k n) as [->|]; [lra|]. apply IHn; auto; try lia; try lra. 
+Qed.
+
+(* ------------------------------------------------------------------ self-certifying row invariant
+   A row (as a function of the column) is the affine combination
+       row = obj + sum_k (row[a+k] - obj[a+k]) * T0[k]
+   of the L rows of T0, the multipliers being read off the columns a..a+L (identity block of T0).
+   obj = 0: constraint rows.  obj = objective: criterion row. *)
+Definition comb_aff (L a nc : nat) (T0 : matQ) (obj row : nat -> Q) : Prop :=
+  forall j, (j < nc)%nat -> row j == obj j + sumQ L (fun k => (row (a + k)%nat - obj (a + k)%nat) * get T0 k j).
+Definition comb_lin L a nc T0 row := comb_aff L a nc T0 (fun _ => 0) row.
+
+Lemma comb_aff_ext L a nc T0 obj r1 r2 :
+  (a + L <= nc)%nat -> (forall j, (j < nc)%nat -> r1 j == r2 j) -> comb_aff L a nc T0 obj r1 -> comb_aff L a nc T0 obj r2.
+Proof.
+  intros Ha He H1 j Hj. rewrite <- He by auto. rewrite (H1 j Hj). apply Qplus_comp; [reflexivity|].
+  apply sumQ_ext. intros k Hk. rewrite He by lia. reflexivity.
+Qed.
+
+Lemma comb_aff_sub L a nc T0 obj ri rr mu :
+  comb_aff L a nc T0 obj ri -> comb_lin L a nc T0 rr -> comb_aff L a nc T0 obj (fun j => ri j - mu * rr j).
+Proof.
+  intros Hi Hr j Hj. cbv beta. rewrite (Hi j Hj), (Hr j Hj).
+  transitivity (obj j + sumQ L (fun k => 1 * ((ri (a + k)%nat - obj (a + k)%nat) * get T0 k j)
+                                        + (- mu) * ((rr (a + k)%nat - 0) * get T0 k j))).
+  - rewrite sumQ_lin. ring.
+  - apply Qplus_comp; [reflexivity|]. apply sumQ_ext. intros. ring.
+Qed.
+
+Lemma comb_lin_scale L a nc T0 rr s :
+  comb_lin L a nc T0 rr -> comb_lin L a nc T0 (fun j => s * rr j).
+Proof.
+  intros Hr j Hj. cbv beta. rewrite (Hr j Hj).
+  transitivity (0 + sumQ L (fun k => s * ((rr (a + k)%nat - 0) * get T0 k j))).
+  - rewrite sumQ_scale. ring.
+  - apply Qplus_comp; [reflexivity|]. apply sumQ_ext. intros. ring.
+Qed.
+
+(* rows of a tableau *)
+Definition rowf (T : matQ) (i : nat) : nat -> Q := fun j => get T i j.
+
+(* T0's own rows satisfy the invariant when T0 has an identity block at columns a..a+L *)
+Lemma comb_lin_init L a nc T0 i :
+  (i < L)%nat ->
+  (forall k j, (k < L)%nat -> (j < L)%nat -> get T0 k (a + j)%nat == if Nat.eqb k j then 1 else 0) ->
+  comb_lin L a nc T0 (rowf T0 i).
+Proof.
+  intros Hi Hid j Hj. unfold rowf.
+  rewrite (sumQ_ext L _ (fun k => if Nat.eqb k i then get T0 k j else 0)).
+  - rewrite sumQ_delta. destruct (Nat.ltb_spec i L); [ring|lia].
+  - intros k Hk. rewrite (Hid i k Hi Hk). destruct (Nat.eqb_spec k i), (Nat.eqb_spec i k); try (exfalso; lia); ring.
+Qed.
+
+(* _pivoting preserves the invariant: pivot row (linear) ... *)
+Lemma pivoting_comb_lin_pivrow nr nc L a T0 T c r :
+  wf nr nc T -> (r < nr)%nat -> (a + L <= nc)%nat ->
+  comb_lin L a nc T0 (rowf T r) -> comb_lin L a nc T0 (rowf (pivoting T c r) r).
+Proof.
+  intros Hwf Hr Ha Hlin.
+  apply comb_aff_ext with (r1 := fun j => (/ get T r c) * rowf T r j); auto.
+  - intros j Hj. unfold rowf. rewrite (get_pivoting nr nc) by auto. rewrite Nat.eqb_refl. unfold Qdiv. ring.
+  - apply comb_lin_scale; auto.
+Qed.
+(* ... and every other row, linear or affine (criterion row) *)
+Lemma pivoting_comb_aff_other nr nc L a T0 obj T c r i :
+  wf nr nc T -> (r < nr)%nat -> (i < nr)%nat -> i <> r -> (a + L <= nc)%nat ->
+  comb_lin L a nc T0 (rowf T r) -> comb_aff L a nc T0 obj (rowf T i) ->
+  comb_aff L a nc T0 obj (rowf (pivoting T c r) i).
+Proof.
+  intros Hwf Hr Hi Hne Ha Hlin Haff.
+  apply comb_aff_ext with (r1 := fun j => rowf T i j - (get T i c / get T r c) * rowf T r j); auto.
+  - intros j Hj. unfold rowf. rewrite (get_pivoting nr nc) by auto.
+    destruct (Nat.eqb_spec i r); [contradiction|]. unfold Qdiv. ring.
+  - apply comb_aff_sub; auto.
+Qed.
+
+(* ------------------------------------------------------------------ unit columns of the basic variables *)
+Definition unit_cols (nr L : nat) (T : matQ) (basis : list nat) : Prop :=
+  forall i k, (i < L)%nat -> (k < nr)%nat -> get T k (nth i basis 0%nat) == if Nat.eqb k i then 1 else 0.
+
+Lemma unit_cols_pivoting nr nc L T basis c r :
+  wf nr nc T -> (L <= nr)%nat -> length basis = L -> (r < L)%nat -> (c < nc)%nat ->
+  (forall i, (i < L)%nat -> (nth i basis 0 < nc)%nat) ->
+  ~ get T r c == 0 ->
+  unit_cols nr L T basis -> unit_cols nr L (pivoting T c r) (set_nth basis r c).
+Proof.
+  intros Hwf HL Hlen Hr Hc Hb Hp Hu i k Hi Hk.
+  assert (Hrn : (r < nr)%nat) by lia.
+  destruct (Nat.eq_dec i r) as [->|Hir].
+  - rewrite nth_set_nth_eq by lia. rewrite (get_pivoting nr nc) by auto.
+    destruct (Nat.eqb k r); field; auto.
+  - rewrite nth_set_nth_neq by auto. rewrite (get_pivoting nr nc) by auto.
+    pose proof (Hu i r Hi Hrn) as Hz. destruct (Nat.eqb_spec r i); [congruence|].
+    pose proof (Hu i k Hi Hk) as Hk'.
+    destruct (Nat.eqb_spec k r) as [->|Hkr].
+    + destruct (Nat.eqb_spec r i); [congruence|]. rewrite Hz. field; auto.
+    + rewrite Hz, Hk'. field; auto.
+Qed.
+
+(* ------------------------------------------------------------------ solutions of the row equations *)
+Definition solves (L nc : nat) (T : matQ) (u : nat -> Q) : Prop :=
+  forall i, (i < L)%nat -> sumQ (nc - 1) (fun j => get T i j * u j) == get T i (nc - 1)%nat.
+
+(* a solution of the pivoted system solves the system before the pivot *)
+Lemma solves_pivoting_back nr nc L T c r u :
+  wf nr nc T -> (L <= nr)%nat -> (r < L)%nat -> (0 < nc)%nat -> ~ get T r c == 0 ->
+  solves L nc (pivoting T c r) u -> solves L nc T u.
+Proof.
+  intros Hwf HL Hr Hnc Hp Hs i Hi.
+  assert (Hrn : (r < nr)%nat) by lia. assert (Hin : (i < nr)%nat) by lia.
+  pose proof (Hs r Hr) as Er.
+  rewrite (get_pivoting nr nc) in Er by (auto; lia). rewrite Nat.eqb_refl in Er.
+  rewrite (sumQ_ext _ _ (fun j => (/ get T r c) * (get T r j * u j))) in Er.
+  2:{ intros j Hj. rewrite (get_pivoting nr nc) by (auto; lia). rewrite Nat.eqb_refl. field; auto. }
+  rewrite sumQ_scale in Er.
+  assert (Err : sumQ (nc - 1) (fun j => get T r j * u j) == get T r (nc - 1)%nat).
+  { setoid_replace (sumQ (nc - 1) (fun j => get T r j * u j))
+      with (get T r c * (/ get T r c * sumQ (nc - 1) (fun j => get T r j * u j))) by (field; auto).
+    rewrite Er. field; auto. }
+  destruct (Nat.eq_dec i r) as [->|Hne]; auto.
+  pose proof (Hs i Hi) as Ei.
+  rewrite (get_pivoting nr nc) in Ei by (auto; lia).
+  destruct (Nat.eqb_spec i r); [contradiction|].
+  rewrite (sumQ_ext _ _ (fun j => 1 * (get T i j * u j) + (- (get T i c / get T r c)) * (get T r j * u j))) in Ei.
+  2:{ intros j Hj. rewrite (get_pivoting nr nc) by (auto; lia). destruct (Nat.eqb_spec i r); [contradiction|]. field; auto. }
+  rewrite sumQ_lin, Err in Ei.
+  setoid_replace (sumQ (nc - 1) (fun j => get T i j * u j))
+    with ((1 * sumQ (nc - 1) (fun j => get T i j * u j) + - (get T i c / get T r c) * get T r (nc - 1)%nat)
+          + (get T i c / get T r c) * get T r (nc - 1)%nat) by (field; auto).
+  rewrite Ei. field; auto.
+Qed.
+
+(* basic solution read from the tableau: u_j = rhs of the row whose basic variable is j, else 0 *)
+Definition bsol (L nc : nat) (T : matQ) (basis : list nat) (j : nat) : Q :=
+  sumQ L (fun i => if Nat.eqb (nth i basis 0%nat) j then get T i (nc - 1)%nat else 0).
+
+Lemma bsol_dot nc L T basis k :
+  (forall i, (i < L)%nat -> (nth i basis 0 < nc - 1)%nat) ->
+  sumQ (nc - 1) (fun j => get T k j * bsol L nc T basis j)
+  == sumQ L (fun i => get T k (nth i basis 0%nat) * get T i (nc - 1)%nat).
+Proof.
+  intros Hb. unfold bsol.
+  rewrite (sumQ_ext _ _ (fun j => sumQ L (fun i => if Nat.eqb (nth i basis 0%nat) j then get T k j * get T i (nc - 1)%nat else 0))).
+  2:{ intros j Hj. rewrite <- sumQ_scale. apply sumQ_ext. intros i Hi. destruct (Nat.eqb _ _); ring. }
+  rewrite sumQ_swap. apply sumQ_ext. intros i Hi.
+  rewrite (sumQ_delta' (nc - 1) (nth i basis 0%nat) (fun j => get T k j * get T i (nc - 1)%nat)).
+  destruct (Nat.ltb_spec (nth i basis 0%nat) (nc - 1)); [reflexivity|]. specialize (Hb i Hi). lia.
+Qed.
+
+Lemma bsol_solves nr nc L T basis :
+  (L <= nr)%nat -> (forall i, (i < L)%nat -> (nth i basis 0 < nc - 1)%nat) ->
+  unit_cols nr L T basis -> solves L nc T (bsol L nc T basis).
+Proof.
+  intros HL Hb Hu k Hk. rewrite bsol_dot by auto.
+  rewrite (sumQ_ext _ _ (fun i => if Nat.eqb i k then get T i (nc - 1)%nat else 0)).
+  - rewrite sumQ_delta. destruct (Nat.ltb_spec k L); [reflexivity|lia].
+  - intros i Hi. rewrite (Hu i k Hi) by lia. destruct (Nat.eqb_spec k i), (Nat.eqb_spec i k); try (exfalso; lia); ring.
+Qed.
+
+(* a row outside the constraint rows (criterion row) has zero product with the basic solution *)
+Lemma bsol_dot_crit nr nc L T basis k :
+  (L <= k)%nat -> (k < nr)%nat -> (forall i, (i < L)%nat -> (nth i basis 0 < nc - 1)%nat) ->
+  unit_cols nr L T basis -> sumQ (nc - 1) (fun j => get T k j * bsol L nc T basis j) == 0.
+Proof.
+  intros HL Hk Hb Hu. rewrite bsol_dot by auto. apply sumQ_zero. intros i Hi.
+  rewrite (Hu i k Hi Hk). destruct (Nat.eqb_spec k i); [lia|ring].
+Qed.
+
+Lemma bsol_basic nr nc L T basis i :
+  (L <= nr)%nat -> (i < L)%nat -> unit_cols nr L T basis ->
+  bsol L nc T basis (nth i basis 0%nat) == get T i (nc - 1)%nat.
+Proof.
+  intros HL Hi Hu. unfold bsol.
+  rewrite (sumQ_ext _ _ (fun i' => if Nat.eqb i' i then get T i' (nc - 1)%nat else 0)).
+  - rewrite sumQ_delta. destruct (Nat.ltb_spec i L); [reflexivity|lia].
+  - intros i' Hi'. destruct (Nat.eqb_spec (nth i' basis 0%nat) (nth i basis 0%nat)) as [E|E];
+      destruct (Nat.eqb_spec i' i) as [E'|E']; try reflexivity.
+    + exfalso. pose proof (Hu i' i' Hi' ltac:(lia)) as H1. pose proof (Hu i i' Hi ltac:(lia)) as H2.
+      rewrite E in H1. rewrite H1 in H2. rewrite Nat.eqb_refl in H2. destruct (Nat.eqb_spec i' i); [contradiction|]. lra.
+    + subst. contradiction.
+Qed.
+
+Lemma bsol_nonbasic L nc T basis j :
+  (forall i, (i < L)%nat -> nth i basis 0%nat <> j) -> bsol L nc T basis j == 0.
+Proof. intros H. apply sumQ_zero. intros i Hi. destruct (Nat.eqb_spec (nth i basis 0%nat) j); [exfalso; eapply H; eauto|reflexivity]. Qed.
+
+Lemma bsol_nonneg L nc T basis j :
+  (forall i, (i < L)%nat -> 0 <= get T i (nc - 1)%nat) -> 0 <= bsol L nc T basis j.
+Proof. intros H. apply sumQ_nonneg. intros i Hi. destruct (Nat.eqb _ _); [auto|lra]. Qed.
+(* ------------------------------------------------------------------ min-ratio test *)
+(* boolean comparisons of NumQ *)
+Lemma nleb_le (a b : Q) : nleb a b = true <-> a <= b.
+Proof. apply Qle_bool_iff. Qed.
+Lemma nltb_lt (a b : Q) : nltb a b = true <-> a < b.
+Proof. apply Qltb_lt. Qed.
+Lemma nleb_false (a b : Q) : nleb a b = false <-> b < a.
+Proof.
+  change (nleb a b) with (Qle_bool a b). split; intros H.
+  - apply Qnot_le_lt. intro H'. apply Qle_bool_iff in H'. congruence.
+  - destruct (Qle_bool a b) eqn:E; auto. apply Qle_bool_iff in E. lra.
+Qed.
+Lemma nltb_false (a b : Q) : nltb a b = false <-> b <= a.
+Proof.
+  split; intros H.
+  - apply Qnot_lt_le. intro H'. apply nltb_lt in H'. congruence.
+  - destruct (nltb a b) eqn:E; auto. apply nltb_lt in E. lra.
+Qed.
+
+(* every tolerance: rows returned are candidates whose pivot-column entry exceeds tol_piv *)
+Lemma mrt_loop_in M pv tc tolp tolr cands rmin acc r :
+  In r (mrt_loop M pv tc tolp tolr cands rmin acc) ->
+  In r acc \/ (In r cands /\ tolp < get M r pv).
+Proof.
+  revert rmin acc. induction cands as [|i rest IH]; intros rmin acc Hin; cbn [mrt_loop] in Hin.
+  - left. now apply in_rev.
+  - destruct (nleb (get M i pv) tolp) eqn:E1.
+    + destruct (IH _ _ Hin) as [|[? ?]]; auto. right; split; auto. now right.
+    + apply nleb_false in E1.
+      assert (Hcase : forall rm' acc', In r (mrt_loop M pv tc tolp tolr rest rm' acc') ->
+                (forall x, In x acc' -> x = i \/ In x acc) ->
+                In r acc \/ In r (i :: rest) /\ tolp < get M r pv).
+      { intros rm' acc' H1 H2. destruct (IH _ _ H1) as [Ha|[Ha Hb]].
+        - destruct (H2 _ Ha) as [->|]; auto. right; split; auto. now left.
+        - right; split; auto. now right. }
+      destruct rmin as [rm|].
+      * destruct (nltb _ _); [|destruct (nltb _ _)].
+        -- apply (Hcase _ _ Hin). auto.
+        -- apply (Hcase _ _ Hin). intros x [<-|[]]; auto.
+        -- apply (Hcase _ _ Hin). intros x [<-|]; auto.
+      * apply (Hcase _ _ Hin). intros x [<-|[]]; auto.
+Qed.
+
+Lemma min_ratio_test_in M pv tc tolp tolr cands r :
+  In r (min_ratio_test M pv tc tolp tolr cands) -> In r cands /\ tolp < get M r pv.
+Proof. intros H. destruct (mrt_loop_in _ _ _ _ _ _ _ _ _ H) as [[]|]; auto. Qed.
+
+(* tolerance 0: rows returned attain the minimum ratio among the candidates with positive entry *)
+Definition ratio (M : matQ) (pv tc i : nat) : Q := get M i tc / get M i pv.
+
+Lemma mrt_loop_min M pv tc cands rmin acc r :
+  match rmin with
+  | None => acc = []
+  | Some rm => forall x, In x acc -> ratio M pv tc x == rm
+  end ->
+  In r (mrt_loop M pv tc 0 0 cands rmin acc) ->
+  (forall k, In k cands -> 0 < get M k pv -> ratio M pv tc r <= ratio M pv tc k) /\
+  match rmin with Some rm => ratio M pv tc r <= rm | None => True end.
+Proof.
+  revert rmin acc. induction cands as [|i rest IH]; intros rmin acc Hinv Hin; cbn [mrt_loop] in Hin.
+  - split; [intros k []|]. destruct rmin as [rm|]; auto. apply in_rev in Hin. rewrite (Hinv _ Hin). lra.
+  - change (@nzero Q NumQ) with 0 in *.
+    destruct (nleb (get M i pv) 0) eqn:E1.
+    + apply nleb_le in E1. destruct (IH _ _ Hinv Hin) as [H1 H2]. split; auto.
+      intros k [<-|Hk] Hpos; [lra|auto].
+    + apply nleb_false in E1.
+      change (ndiv (get M i tc) (get M i pv)) with (Qdivr (get M i tc) (get M i pv)) in Hin.
+      assert (Er : Qdivr (get M i tc) (get M i pv) == ratio M pv tc i) by apply Qdivr_eq.
+      destruct rmin as [rm|].
+      * change (nadd rm 0) with (Qaddr rm 0) in Hin. change (nsub rm 0) with (Qsubr rm 0) in Hin.
+        destruct (nltb (Qaddr rm 0) _) eqn:E2.
+        -- apply nltb_lt in E2. rewrite Qaddr_eq, Er in E2.
+           destruct (IH (Some rm) acc Hinv Hin) as [H1 H2]. split; auto.
+           intros k [<-|Hk] Hpos; [lra|auto].
+        -- apply nltb_false in E2. rewrite Qaddr_eq, Er in E2.
+           destruct (nltb _ (Qsubr rm 0)) eqn:E3.
+           ++ apply nltb_lt in E3. rewrite Qsubr_eq, Er in E3.
+              destruct (IH (Some (Qdivr (get M i tc) (get M i pv))) [i]) as [H1 H2]; auto.
+              { intros x [<-|[]]. now rewrite Er. }
+              rewrite Er in H2. split; [|lra].
+              intros k [<-|Hk] Hpos; auto.
+           ++ apply nltb_false in E3. rewrite Qsubr_eq, Er in E3.
+              destruct (IH (Some rm) (i :: acc)) as [H1 H2]; auto.
+              { intros x [<-|Hx]; auto. lra. }
+              split; auto. intros k [<-|Hk] Hpos; auto. lra.
+      * destruct (IH (Some (Qdivr (get M i tc) (get M i pv))) [i]) as [H1 H2]; auto.
+        { intros x [<-|[]]. now rewrite Er. }
+        rewrite Er in H2. split; auto.
+        intros k [<-|Hk] Hpos; auto.
+Qed.
+
+Lemma min_ratio_test_min M pv tc cands r :
+  In r (min_ratio_test M pv tc 0 0 cands) ->
+  forall k, In k cands -> 0 < get M k pv -> ratio M pv tc r <= ratio M pv tc k.
+Proof. intros H. apply (mrt_loop_min M pv tc cands None [] r); auto. Qed.
+
+(* the tie-breaking rounds only discard rows *)
+Lemma lex_loop_subset (M : matQ) pv tolp tolr cols am found am' :
+  lex_loop M pv tolp tolr cols am = (found, am') -> forall r, In r am' -> In r am.
+Proof.
+  revert am. induction cols as [|j rest IH]; intros am H r Hr; cbn in H.
+  - inversion H; subst; auto.
+  - destruct (Nat.eqb j pv); [eauto|].
+    assert (Hs : forall x, In x (min_ratio_test M pv j tolp tolr am) -> In x am)
+      by (intros x Hx; apply min_ratio_test_in in Hx; tauto).
+    destruct (min_ratio_test M pv j tolp tolr am) as [|a [|b l]] eqn:E.
+    + apply Hs. eapply IH; eauto.
+    + inversion H; subst. auto.
+    + apply Hs. eapply IH; eauto.
+Qed.
+Lemma lex_loop_found (M : matQ) pv tolp tolr cols am am' :
+  lex_loop M pv tolp tolr cols am = (true, am') -> exists r, am' = [r].
+Proof.
+  revert am. induction cols as [|j rest IH]; intros am H; cbn in H; [discriminate|].
+  destruct (Nat.eqb j pv); [eauto|].
+  destruct (min_ratio_test M pv j tolp tolr am) as [|a [|b l]] eqn:E; eauto.
+  inversion H; subst. eauto.
+Qed.
+
+(* _lex_min_ratio_test: a found row is a row of the tableau part tested, has a pivot-column entry
+   above tol_piv, and (tolerance 0) attains the minimum ratio rhs/entry *)
+Lemma lex_min_ratio_test_n_in nr (M : matQ) pv ss tolp tolr r :
+  lex_min_ratio_test_n nr M pv ss tolp tolr = (true, r) ->
+  In r (min_ratio_test M pv (ncols M - 1) tolp tolr (seq 0 nr)).
+Proof.
+  unfold lex_min_ratio_test_n. intros H.
+  destruct (min_ratio_test M pv (ncols M - 1) tolp tolr (seq 0 nr)) as [|a [|b l]] eqn:E.
+  - discriminate.
+  - inversion H; subst. now left.
+  - destruct (lex_loop M pv tolp tolr (seq ss nr) (a :: b :: l)) as [found am'] eqn:E2.
+    inversion H; subst found. destruct (lex_loop_found _ _ _ _ _ _ _ E2) as [r' ->].
+    apply (lex_loop_subset _ _ _ _ _ _ _ _ E2). now left.
+Qed.
+
+Lemma lex_min_ratio_test_n_spec nr (M : matQ) pv ss tolp tolr r :
+  lex_min_ratio_test_n nr M pv ss tolp tolr = (true, r) -> (r < nr)%nat /\ tolp < get M r pv.
+Proof.
+  intros H. apply lex_min_ratio_test_n_in in H. apply min_ratio_test_in in H. destruct H as [H1 H2].
+  apply in_seq in H1. split; auto; lia.
+Qed.
+
+Lemma lex_min_ratio_test_n_min nr (M : matQ) pv ss r :
+  lex_min_ratio_test_n nr M pv ss 0 0 = (true, r) ->
+  forall k, (k < nr)%nat -> 0 < get M k pv ->
+            ratio M pv (ncols M - 1) r <= ratio M pv (ncols M - 1) k.
+Proof.
+  intros H k Hk Hpos. apply lex_min_ratio_test_n_in in H.
+  apply (min_ratio_test_min _ _ _ _ _ H); auto. apply in_seq. lia.
+Qed.
+
+(* no row with an entry above tol_piv: not found *)
+Lemma lex_min_ratio_test_n_none nr (M : matQ) pv ss tolp tolr :
+  (forall k, (k < nr)%nat -> get M k pv <= tolp) -> fst (lex_min_ratio_test_n nr M pv ss tolp tolr) = false.
+Proof.
+  intros Hall. destruct (lex_min_ratio_test_n nr M pv ss tolp tolr) as [[|] r] eqn:E; auto.
+  apply lex_min_ratio_test_n_spec in E. destruct E as [E1 E2]. specialize (Hall r E1). lra.
+Qed.
+
+(* ------------------------------------------------------------------ right-hand side stays >= 0 *)
+Lemma pivoting_rhs_nonneg nr nc L T c r :
+  wf nr nc T -> (L <= nr)%nat -> (r < L)%nat -> (0 < nc)%nat ->
+  0 < get T r c ->
+  (forall k, (k < L)%nat -> 0 < get T k c -> ratio T c (nc - 1) r <= ratio T c (nc - 1) k) ->
+  (forall i, (i < L)%nat -> 0 <= get T i (nc - 1)%nat) ->
+  forall i, (i < L)%nat -> 0 <= get (pivoting T c r) i (nc - 1)%nat.
+Proof.
+  intros Hwf HL Hr Hnc Hp Hmin Hrhs i Hi.
+  rewrite (get_pivoting nr nc) by (auto; lia).
+  pose proof (Hrhs r Hr) as Hrr. pose proof (Hrhs i Hi) as Hri.
+  assert (Hq : 0 <= get T r (nc - 1)%nat / get T r c).
+  { apply Qle_shift_div_l; auto. lra. }
+  destruct (Nat.eqb i r); auto.
+  destruct (Qlt_le_dec 0 (get T i c)) as [Hpos|Hneg].
+  - specialize (Hmin i Hi Hpos). unfold ratio in Hmin.
+    assert (get T r (nc - 1)%nat / get T r c * get T i c <= get T i (nc - 1)%nat).
+    { assert (E : get T i (nc - 1)%nat == get T i (nc - 1)%nat / get T i c * get T i c) by (field; lra).
+      rewrite E. apply Qmult_le_compat_r; lra. }
+    lra.
+  - assert (get T r (nc - 1)%nat / get T r c * get T i c <= 0) by nra. lra.
+Qed.
